@@ -76,8 +76,10 @@ def check(prog: Program, run: Run) -> None:
     _nothing_dropped(prog, tm, pt, ty, run)
     _escaping(prog, tm, run)
     _docref(tm, run)
+    _docref_fragment(prog, tm, run)
     _guard_body(tm, run)
     _foreign_value_guards(tm, pt, run)
+    _elif_chains(tm, pt, run)
     _loaders(prog, run)
     common.g4_no_stale_memo(prog, run, "C11.R6", ["odxtools/writepdxfile.py"])
 
@@ -505,6 +507,53 @@ def _docref(tm: TemplateModel, run: Run) -> None:
                                   where, o.text)
 
 
+DOCREF_ANY_FRAGMENT = {
+    ("macros/printProtocol.xml.jinja2", "dlr.comparam_spec_ref.ref_docs"):
+        "a COMPARAM-SPEC lives in its own document category, so a loadable reference to it always "
+        "carries an explicit DOCREF and ref_docs has exactly one element",
+}
+
+
+def _docref_fragment(prog: Program, tm: TemplateModel, run: Run) -> None:
+    """The document named by DOCREF is the FIRST fragment of ref_docs (for a reference without
+    explicit document the later fragments name the layer that contains the reference, not the
+    target's document)."""
+    R = "C11.R3"
+    n = 0
+    for t in tm.templates.values():
+        if t.ast is None:
+            continue
+        for g in t.ast.find_all(nodes.Getitem):
+            if isinstance(g.node, nodes.Getattr) and g.node.attr == "ref_docs":
+                n += 1
+                where = f"odxtools/templates/{t.rel}:{g.lineno}"
+                if isinstance(g.arg, nodes.Const) and g.arg.value == 0:
+                    run.ok(R, t.rel, "DOCREF is taken from ref_docs[0]", where)
+                elif (t.rel, _expr_text(g.node)) in DOCREF_ANY_FRAGMENT:
+                    run.ok(R, t.rel, f"{_expr_text(g)}: exempt, "
+                           f"{DOCREF_ANY_FRAGMENT[(t.rel, _expr_text(g.node))]}", where)
+                else:
+                    run.violation(R, t.rel, f"docref-fragment:{_expr_text(g)}",
+                                  f"`{_expr_text(g)}`: DOCREF/DOCTYPE must name the first "
+                                  "document fragment of the reference; any other fragment is the "
+                                  "referencing layer for references without explicit DOCREF, so "
+                                  "the written reference cannot be resolved", where)
+    m = prog.module("odxtools.writepdxfile")
+    for x in ast.walk(m.tree):
+        if isinstance(x, ast.Subscript) and isinstance(x.value, ast.Attribute) and \
+                x.value.attr == "ref_docs":
+            n += 1
+            where = f"{m.rel}:{x.lineno}"
+            if isinstance(x.slice, ast.Constant) and x.slice.value == 0:
+                run.ok(R, m.rel, "DOCREF is taken from ref_docs[0]", where)
+            else:
+                run.violation(R, m.rel, f"docref-fragment:{ast.unparse(x)}",
+                              f"`{ast.unparse(x)}`: DOCREF/DOCTYPE must name the first document "
+                              "fragment of the reference (see above)", where)
+    if n < 2:
+        run.error(R, "no ref_docs[...] access found in templates / writer")
+
+
 # ----------------------------------------------------------------------- R4
 def _guard_body(tm: TemplateModel, run: Run) -> None:
     R = "C11.R4"
@@ -621,6 +670,84 @@ def _foreign_value_guards(tm: TemplateModel, pt, run: Run) -> None:
             continue
         for mac in t.ast.find_all(nodes.Macro):
             walk(mac.body, [], t, mac.name)
+
+
+# groups of attributes that are alternatives of one xsd:choice (or exclude each other by the
+# ODX semantics): only these may share an if / elif chain of presence tests
+CHOICES = [
+    ({"structure_ref", "structure_snref", "env_data_desc_ref", "env_data_desc_snref"},
+     "FIELD: xsd:choice of BASIC-STRUCTURE-(SN)REF and ENV-DATA-DESC-(SN)REF"),
+    ({"sdg_caption_ref", "sdg_caption"}, "SDG: xsd:choice of SDG-CAPTION and SDG-CAPTION-REF"),
+    ({"display_radix", "precision"},
+     "PHYSICAL-TYPE: DISPLAY-RADIX applies to A_UINT32, PRECISION to the float types"),
+]
+
+
+def _stem(a: str) -> str:
+    for suf in ("_snpathref", "_snref", "_ref"):
+        if a.endswith(suf):
+            return a[:-len(suf)]
+    return a
+
+
+def _elif_chains(tm: TemplateModel, pt, run: Run) -> None:
+    """`{% if o.a %}…{% elif o.b %}…` writes b only when a is absent: legitimate for the
+    alternatives of a choice (X-REF / X-SNREF, the table above), a dropped attribute for two
+    independent optional attributes."""
+    R = "C11.R4"
+    xmlfields: Set[str] = set()
+    for pi in pt:
+        xmlfields |= set(pi.field_sources)
+
+    def presence_attr(test) -> Optional[Tuple[str, str]]:
+        e = test
+        if isinstance(e, nodes.Not):
+            e = e.node
+            if isinstance(e, nodes.Test) and e.name == "none":
+                e = e.node
+            else:
+                return None
+        elif isinstance(e, nodes.Test):
+            if e.name == "none":
+                return None  # `x is none` selects the absent case
+            return None
+        elif isinstance(e, nodes.Compare) and len(e.ops) == 1 and e.ops[0].op == "ne" and \
+                isinstance(e.ops[0].expr, nodes.Const) and e.ops[0].expr.value is None:
+            e = e.expr
+        if isinstance(e, nodes.Getattr) and isinstance(e.node, nodes.Name):
+            return e.node.name, e.attr
+        return None
+    n = 0
+    for t in tm.templates.values():
+        if t.ast is None:
+            continue
+        for mac in t.ast.find_all(nodes.Macro):
+            for i in mac.find_all(nodes.If):
+                if not i.elif_:
+                    continue
+                pa = [presence_attr(x.test) for x in [i] + list(i.elif_)]
+                fields = [p for p in pa if p is not None and p[1] in xmlfields]
+                if len(fields) < 2 or len({o for o, _a in fields}) != 1:
+                    continue
+                n += 1
+                attrs = [a for _o, a in fields]
+                C = f"{t.rel}:{mac.name}"
+                where = f"odxtools/templates/{t.rel}:{i.lineno}"
+                if len({_stem(a) for a in attrs}) == 1:
+                    run.ok(R, C, f"if/elif over {attrs}: reference kinds of one target", where)
+                    continue
+                grp = [why for g, why in CHOICES if set(attrs) <= g]
+                if grp:
+                    run.ok(R, C, f"if/elif over {attrs}: {grp[0]}", where)
+                else:
+                    run.violation(R, C, f"elif-drops-{attrs[1]}",
+                                  f"`{fields[0][0]}.{attrs[1]}` is written only when "
+                                  f"`{fields[0][0]}.{attrs[0]}` is absent (if / elif chain over "
+                                  f"{attrs}); the parser reads them independently, so an object "
+                                  "that has both loses the later one when the database is "
+                                  "written", where)
+    if n < 3:
+        run.error(R, f"only {n} if/elif chains over optional attributes found in the templates")
 
 
 # ----------------------------------------------------------------------- R5
